@@ -876,8 +876,11 @@ def gen_icwalk_trace(seed):
     nprog = r.choice([r.randint(1, 6), r.randint(4, 40), r.randint(30, 120)])
     ops = [["LOAD", nprog]]
     pc = 0
-    for _ in range(R.marathon(seed) or r.choice([r.randint(1, 10), r.randint(8, 60), r.randint(40, 150)]) * R.deep(r)):
+    marathon = R.marathon(seed)
+    for _ in range(marathon or r.choice([r.randint(1, 10), r.randint(8, 60), r.randint(40, 150)]) * R.deep(r)):
         k = r.random()
+        if marathon and 0.9 <= k < 0.93 and r.random() < 0.97:
+            k = 0.1  # marathons: a reset only every thousand fetches or so, counts and ages grow in between
         if k < 0.55:
             pc = pc + 4  # sequential fetch
         elif k < 0.8:
